@@ -186,7 +186,7 @@ void op_binary(const Step& s) {
 		std::unique_ptr<BU> shifted; const BU* rhs = c.h[j].bu.get();
 		if (kind == 1) {
 			std::set<long> sa = namespace_states(true, &c.h[j]), sb = observed_states(c.h[j]); bool dis = true; for (long q : sb) if (sa.count(q)) dis = false;
-			if (!dis && !(c.h[i].origin == c.h[j].origin)) { long off = (sa.empty() ? 0 : *sa.rbegin()) + 1; VATA::AutBase::StateToStateMap sm; VATA::AutBase::StateToStateTranslWeak tr(sm, [off](const StateType& q) { return q + StateType(off); }); shifted.reset(new BU(c.h[j].bu->ReindexStates(tr))); rhs = shifted.get(); }
+			if (!dis && !(c.h[i].origin == c.h[j].origin)) { long off = std::max(sa.empty() ? 0l : *sa.rbegin(), sb.empty() ? 0l : *sb.rbegin()) + 1;      /* beyond every state of the name space, the right operand's own included: the original stays alive and may share the left operand's table */ VATA::AutBase::StateToStateMap sm; VATA::AutBase::StateToStateTranslWeak tr(sm, [off](const StateType& q) { return q + StateType(off); }); shifted.reset(new BU(c.h[j].bu->ReindexStates(tr))); rhs = shifted.get(); }
 		}
 		BU r = kind == 0 ? (with_maps ? BU::Union(*c.h[i].bu, *rhs, &m1, &m2) : BU::Union(*c.h[i].bu, *rhs)) : (kind == 1 ? BU::UnionDisjointStates(*c.h[i].bu, *rhs) : (with_maps ? BU::Intersection(*c.h[i].bu, *rhs, &pm) : BU::Intersection(*c.h[i].bu, *rhs)));
 		api_end(); ok = result_model(r, got, site); if (ok) add_bu(c, std::move(r), got);
@@ -194,7 +194,7 @@ void op_binary(const Step& s) {
 		std::unique_ptr<TD> shifted; const TD* rhs = c.h[j].td.get();
 		if (kind == 1) {
 			std::set<long> sa = namespace_states(false, &c.h[j]), sb = observed_states(c.h[j]); bool dis = true; for (long q : sb) if (sa.count(q)) dis = false;
-			if (!dis && !(c.h[i].origin == c.h[j].origin)) { long off = (sa.empty() ? 0 : *sa.rbegin()) + 1; VATA::AutBase::StateToStateMap sm; VATA::AutBase::StateToStateTranslWeak tr(sm, [off](const StateType& q) { return q + StateType(off); }); shifted.reset(new TD(c.h[j].td->ReindexStates(tr))); rhs = shifted.get(); }
+			if (!dis && !(c.h[i].origin == c.h[j].origin)) { long off = std::max(sa.empty() ? 0l : *sa.rbegin(), sb.empty() ? 0l : *sb.rbegin()) + 1;      /* beyond every state of the name space, the right operand's own included: the original stays alive and may share the left operand's table */ VATA::AutBase::StateToStateMap sm; VATA::AutBase::StateToStateTranslWeak tr(sm, [off](const StateType& q) { return q + StateType(off); }); shifted.reset(new TD(c.h[j].td->ReindexStates(tr))); rhs = shifted.get(); }
 		}
 		TD r = kind == 0 ? (with_maps ? TD::Union(*c.h[i].td, *rhs, &m1, &m2) : TD::Union(*c.h[i].td, *rhs)) : (kind == 1 ? TD::UnionDisjointStates(*c.h[i].td, *rhs) : (with_maps ? TD::Intersection(*c.h[i].td, *rhs, &pm) : TD::Intersection(*c.h[i].td, *rhs)));
 		api_end(); ok = result_model(r, got, site); if (ok) add_td(c, std::move(r), got);
@@ -399,6 +399,7 @@ Plan plan_C07(Rng& r, const std::string&) {
 			else gen::gen_incl_pair(r, pool, r.range(1, 5), false, A, B);
 			// the same pair in both encodings
 			int abu = g.load(A, true), bbu = g.load(B, true), atd = g.load(A, false), btd = g.load(B, false);
+			if (r.chance(1, 5)) g.out.push_back(cli_step(r, c, 1 + long(r.below(2)), 3, mdl::to_lit(A), mdl::to_lit(B)));      // vata -r bdd-td|bdd-bu incl
 			if (r.chance(1, 4)) g.value_ops(1);
 			if (r.chance(1, 4)) g.out.push_back(gen::mk(c, "churn", {long(r.below(100000)), long(r.range(4, 40))}));
 			int k = r.range(5, 10);
@@ -423,6 +424,7 @@ Plan plan_C08(Rng& r, const std::string&) {
 		BG g(r, c); int len = r.range(5, 16);
 		gen::TAOpts o; o.max_states = r.range(1, 5);
 		g.load(gen::gen_ta(r, pool, o), true); g.load(gen::gen_ta(r, pool, o), false);
+		if (r.chance(1, 3)) g.out.push_back(cli_step(r, c, 1 + long(r.below(2)), long(r.below(3)), mdl::to_lit(gen::gen_ta(r, pool, o)), mdl::to_lit(gen::gen_ta(r, pool, o))));      // vata -r bdd-.. load|union|isect [-p|-s]
 		for (int i = 0; i < len; ++i) {
 			uint64_t x = r.below(100); bool bu = r.chance(1, 2);
 			if (x < 15) { o.sparse = false; g.load(gen::gen_ta(r, pool, o), bu); }
